@@ -21,6 +21,14 @@ KNOWN_SEEDS = [
     ("operator-overload-of-wrong-arity-unary-used-binary", 'Die Funktion f mit den Parametern y und z vom Typ Text und Text, gibt eine Zahl zurück, macht:\n\tGib 1 zurück.\nUnd überlädt den "Betrag" Operator.\n\nDie Zahl a ist der Betrag von "x".\n'),
     ("operator-overload-of-wrong-arity-cast", _PUNKT + 'Die Funktion f gibt eine Zahl zurück, macht:\n\tGib 1 zurück.\nUnd überlädt den "als" Operator.\n\nDer Punkt p ist ein Punkt.\nDie Zahl a ist p als Zahl.\n'),
     ("generic-function-instantiating-itself-with-a-bigger-type", 'Die generische Funktion f mit dem Parameter a vom Typ T, gibt nichts zurück, macht:\n\tDie T Liste l ist eine leere T Liste.\n\tf l.\nUnd kann so benutzt werden:\n\t"f <a>"\n\nf 1.\n'),
+    ("generic-function-instantiating-itself-inside-an-argument", 'Die Funktion Doppelt mit dem Parameter n vom Typ Zahl, gibt eine Zahl zurück, macht:\n\tGib n mal 2 zurück.\nUnd kann so benutzt werden:\n\t"das Doppelte von <n>"\n\n'
+     'Die generische Funktion Tiefe mit dem Parameter a vom Typ T, gibt eine Zahl zurück, macht:\n\tDie T Liste l ist eine leere T Liste.\n\tGib das Doppelte von (die Tiefe von l) zurück.\nUnd kann so benutzt werden:\n\t"die Tiefe von <a>"\n\nDie Zahl z ist die Tiefe von 1.\n'),
+    ("generic-function-instantiating-itself-inside-an-operand", 'Die generische Funktion Tiefe mit dem Parameter a vom Typ T, gibt eine Zahl zurück, macht:\n\tDie T Liste l ist eine leere T Liste.\n\tGib (die Tiefe von l) plus 1 zurück.\nUnd kann so benutzt werden:\n\t"die Tiefe von <a>"\n\nDie Zahl z ist die Tiefe von 1.\n'),
+    ("generic-function-instantiating-itself-inside-its-own-argument", 'Die generische Funktion Tiefe mit dem Parameter a vom Typ T, gibt eine Zahl zurück, macht:\n\tDie T Liste l ist eine leere T Liste.\n\tGib die Tiefe von (die Tiefe von l) zurück.\nUnd kann so benutzt werden:\n\t"die Tiefe von <a>"\n\nDie Zahl z ist die Tiefe von 1.\n'),
+    ("generic-function-instantiating-itself-inside-a-condition", 'Die generische Funktion Tiefe mit dem Parameter a vom Typ T, gibt eine Zahl zurück, macht:\n\tDie T Liste l ist eine leere T Liste.\n\tWenn (die Tiefe von l) gleich 0 ist, gib 1 zurück.\n\tGib 0 zurück.\nUnd kann so benutzt werden:\n\t"die Tiefe von <a>"\n\nDie Zahl z ist die Tiefe von 1.\n'),
+    ("two-generic-functions-instantiating-each-other-with-bigger-types", 'Die generische Funktion Ping mit dem Parameter a vom Typ T, gibt eine Zahl zurück, wird später definiert\nund kann so benutzt werden:\n\t"ping <a>"\n\n'
+     'Die generische Funktion Pong mit dem Parameter a vom Typ T, gibt eine Zahl zurück, macht:\n\tDie T Liste l ist eine leere T Liste.\n\tGib ping l zurück.\nUnd kann so benutzt werden:\n\t"pong <a>"\n\n'
+     'Die generische Funktion Ping macht:\n\tDie T Liste l ist eine leere T Liste.\n\tGib (pong l) plus 1 zurück.\n\nDie Zahl z ist ping 1.\n'),
     ("variable-named-like-a-kombination-then-field-access", _PUNKT + 'Der Punkt p ist ein Punkt.\nWenn wahr, dann:\n\tDie Zahl Punkt ist 1.\n\tDie Zahl y ist x von p.\n'),
     ("kombination-with-a-field-of-unknown-type-sharing-its-alias-with-a-kombination", 'Wir nennen die Kombination aus\n\tder Zahl y mit Standardwert 0,\neinen Korb, und erstellen sie so:\n\t"ein Ding mit <y>"\n\nWir nennen die Kombination aus\n\tdem Gibtsnicht x mit Standardwert 0,\neinen Kasten, und erstellen sie so:\n\t"ein Ding mit <x>"\n'),
     ("kombination-with-a-field-of-unknown-type-sharing-its-alias-with-a-function", 'Die Funktion foo mit dem Parameter z vom Typ Zahl, gibt nichts zurück, macht:\n\tDie Zahl q ist 1.\nUnd kann so benutzt werden:\n\t"ein Ding mit <z>"\n\nWir nennen die Kombination aus\n\tdem Gibtsnicht x mit Standardwert 0,\n\tder Zahl y mit Standardwert 0,\neinen Kasten, und erstellen sie so:\n\t"ein Ding mit <x>" oder\n\t"ein Ding mit <y>"\n'),
